@@ -65,7 +65,7 @@ Definition model_prefix_powers : list (string * string) :=
   [("AddToken", "expression:precedence(MultiplyToken)");
    ("ArrayWildcardToken", "projection:projectionPrecedence");
    ("AsteriskToken", "projection:projectionPrecedence");
-   ("FilterToken", "projection:precedence(FilterToken)");
+   ("FilterToken", "projection:projectionPrecedence");
    ("FlattenToken", "projection:precedence(FlattenToken)");
    ("NotToken", "expression:precedence(NotToken)");
    ("OpenParenToken", "expression:1");
@@ -75,6 +75,33 @@ Definition tie_prefix_b : bool :=
   slist_eqb (map (fun p => fst p ++ "=" ++ snd p) gen_prefix_powers)
             (map (fun p => fst p ++ "=" ++ snd p) model_prefix_powers).
 Lemma tie_prefix : tie_prefix_b = true. Proof. vm_compute. reflexivity. Qed.
+
+(* 3b. every binding power handed to a recursive call of the parser (expression / projection /
+   continuation), per method and per switch case, in source order: the text the model's
+   Parser.v was written against.  A change of any of them in the source breaks this lemma. *)
+Definition model_call_powers : list (string * list string) := [("expression", [" continuation:prec"]);
+  ("continuation", ["/AddToken expression:newPrec"; "/AndToken expression:newPrec"; "/ArrayWildcardToken projection:projectionPrecedence"; "/AsteriskToken,MultiplyToken expression:newPrec"; "/DivideToken expression:newPrec"; "/DotToken/QuotedIdentifierToken,UnquotedIdentifierToken expression:newPrec"; "/EqualToken expression:newPrec"; "/FilterToken projection:projectionPrecedence"; "/FlattenToken projection:newPrec"; "/GreaterToken expression:newPrec"; "/GreaterOrEqualToken expression:newPrec"; "/IntegerDivideToken expression:newPrec"; "/LessToken expression:newPrec"; "/LessOrEqualToken expression:newPrec"; "/ModuloToken expression:newPrec"; "/NotEqualToken expression:newPrec"; "/ObjectWildcardToken projection:projectionPrecedence"; "/OpenSqBraceToken projection:projectionPrecedence"; "/OrToken expression:newPrec"; "/PipeToken expression:newPrec"; "/SubtractToken expression:newPrec"]);
+  ("filter", [" expression:1"]);
+  ("function1Arg", [" expression:1"]);
+  ("function1To2Arg", [" expression:1"; " expression:1"]);
+  ("function2Arg", [" expression:1"; " expression:1"]);
+  ("function2ExpArg", [" expression:1"; " expression:1"]);
+  ("function2MapArg", [" expression:1"; " expression:1"]);
+  ("function2To3Arg", [" expression:1"; " expression:1"; " expression:1"]);
+  ("function2To4Arg", [" expression:1"; " expression:1"; " expression:1"; " expression:1"]);
+  ("function3To4Arg", [" expression:1"; " expression:1"; " expression:1"; " expression:1"]);
+  ("functionVarArg", [" expression:1"]);
+  ("let", [" expression:1"; " expression:1"]);
+  ("parse", [" expression:1"]);
+  ("primaryExpression", ["/AddToken expression:precedence(MultiplyToken)"; "/ArrayWildcardToken projection:projectionPrecedence"; "/AsteriskToken projection:projectionPrecedence"; "/FilterToken projection:projectionPrecedence"; "/FlattenToken projection:precedence(FlattenToken)"; "/NotToken expression:precedence(NotToken)"; "/OpenParenToken expression:1"; "/OpenSqBraceToken projection:projectionPrecedence"; "/SubtractToken expression:precedence(MultiplyToken)"]);
+  ("projection", ["/ArrayWildcardToken,DotToken,FilterToken,ObjectWildcardToken,OpenSqBraceToken continuation:prec"]);
+  ("selectArray", [" expression:1"]);
+  ("selectObject", [" expression:1"])].
+Definition call_powers_flat (l : list (string * list string)) : list string :=
+  flat_map (fun p => map (fun c => fst p ++ ":" ++ c) (snd p)) l.
+Definition tie_call_powers_b : bool :=
+  slist_eqb (call_powers_flat gen_call_powers) (call_powers_flat model_call_powers).
+Lemma tie_call_powers : tie_call_powers_b = true. Proof. vm_compute. reflexivity. Qed.
 
 (* 4. function table: name, argument parser, node constructors *)
 Definition argparser_name (a : argparser) : string :=
